@@ -376,16 +376,50 @@ def r08_5(ctx):
     ctx.decide('R08.5', av.qual, 'special case packed+bsr, everything else through the multi-level structure', ok, top[0] if top else av.node)
     if top:
         els = top[0].orelse
-        dims = []
-        node = [s for s in els if isinstance(s, ast.If) and src(s.test).startswith('dim ==')]
-        cur = node[0] if node else None
-        has_else = False
-        while isinstance(cur, ast.If):
-            dims.append(src(cur.test.comparators[0]))
-            if cur.orelse and not (len(cur.orelse) == 1 and isinstance(cur.orelse[0], ast.If)):
-                has_else = True
-            cur = cur.orelse[0] if len(cur.orelse) == 1 and isinstance(cur.orelse[0], ast.If) else None
-        ctx.decide('R08.5', av.qual, 'dims %s + else' % dims, dims == ['1', '2', '3'] and has_else, node[0] if node else av.node, 'every dimension has a kernel or the generic fallback')
+        # decision table over dim: the if-chain on `dim` is evaluated for dim = 1, 2, 3, 4 (tests built from dim, integer
+        # literals, comparisons, in / not in, and / or / not); dim d <= 3 must reach the d-dimensional kernel, dim 4 the
+        # dimension-independent fallback
+        node = [s for s in els if isinstance(s, ast.If) and 'dim' in {x.id for x in ast.walk(s.test) if isinstance(x, ast.Name)}
+                and 'layout' not in src(s.test) and 'format' not in src(s.test)]
+
+        def taken(iff, d):
+            allowed = (ast.Name, ast.Constant, ast.Compare, ast.BoolOp, ast.UnaryOp, ast.Tuple, ast.List, ast.Set, ast.Load, ast.And, ast.Or, ast.Not,
+                       ast.Eq, ast.NotEq, ast.Lt, ast.LtE, ast.Gt, ast.GtE, ast.In, ast.NotIn, ast.USub)
+            cur = iff
+            while True:
+                for x in ast.walk(cur.test):
+                    if not isinstance(x, allowed) or (isinstance(x, ast.Name) and x.id != 'dim'):
+                        return None
+                try:
+                    v = bool(eval(compile(ast.Expression(cur.test), '<dim-test>', 'eval'), {'__builtins__': {}}, {'dim': d}))
+                except Exception:
+                    return None
+                if v:
+                    return cur.body
+                if len(cur.orelse) == 1 and isinstance(cur.orelse[0], ast.If):
+                    cur = cur.orelse[0]
+                    continue
+                return cur.orelse or None
+        if not node:
+            ctx.undecided('R08.5', av.qual, 'every dimension has a kernel or the generic fallback', els[0] if els else av.node, 'dispatch on dim not recognised')
+        else:
+            verdict, detail = True, []
+            for d in (1, 2, 3, 4):
+                body = taken(node[0], d)
+                if body is None:
+                    verdict = None if verdict is not False else False
+                    detail.append('dim %d: ?' % d)
+                    continue
+                t_ = src(ast.Module(body, [])).replace(' ', '')
+                if d <= 3:
+                    okd = ('generic_assemble_core_vec_%dd(' % d) in t_
+                else:
+                    okd = 'multi_blocks(' in t_
+                detail.append('dim %d: %s' % (d, 'ok' if okd else 'WRONG BRANCH'))
+                if not okd:
+                    verdict = False
+            ctx.decide('R08.5', av.qual, 'dispatch on dim reaches the matching kernel (%s)' % ', '.join(detail), verdict, node[0],
+                       'every dimension has its kernel, higher dimensions the generic fallback', definite=True)
         t = src(ast.Module(els, [])).replace(' ', '')
         ok = "iflayout=='blocked':" in t and 'axes=(dim,)+tuple(range(dim))' in t and 'X=X.reorder(axes)' in t
         ctx.decide('R08.5', av.qual, "blocked: component level moved to the front", ok, av.node, 'packed -> blocked is the documented level permutation')
